@@ -266,8 +266,44 @@ def rule_V4(ctx) -> None:
             ctx.refuted("V4", f"{name}:through-the-wire", "bypass", mod.loc(fn), f"{name} returns {rets}; pickling is expected to go through {must}")
 
 
+def rule_V8(ctx) -> None:
+    """copies transfer every field that holds something: a field is left out of the copy only when its raw value is the placeholder"""
+    mod = ctx.repo.mod(M_INIT)
+    for q in ("Message.__copy__", "Message.__deepcopy__"):
+        fn = mod.func(q)
+        paths = interp_for(mod).run(fn)
+        ctx.count(len(paths))
+        skipped = None
+        n = 0
+        for p in paths:
+            if p.outcome == "raise":
+                continue
+            stores = [e for e in p.events if e.kind == "store" and e.data[0][0] == "sub" and e.loops]
+            in_loop = any(e.loops for e in p.events) or True
+            ph = [(k, v) for k, v in p.valuation.items() if k[0] == "op" and k[1] == "is" and show(k[3]) == "PLACEHOLDER"]
+            if not ph:
+                continue
+            n += 1
+            is_placeholder = any(v for _, v in ph)
+            if not is_placeholder and not stores:
+                # what else was decided on this path?
+                others = {show(k): v for k, v in p.valuation.items() if (k, v) not in ph}
+                skipped = (p, others)
+        name = f"{q.split('.')[-1]}:transfers-every-set-field"
+        if n == 0:
+            ctx.inconclusive("V8", name, "field transfer loop not recognised", mod.loc(fn))
+        elif skipped:
+            p, others = skipped
+            ctx.refuted("V8", name, ";".join(f"{k}={v}" for k, v in sorted(others.items()))[:120], mod.loc(fn),
+                        f"a field whose raw value is not the placeholder is left out of the copy when {others}: a oneof member selected with a fresh default message, or a lazily created child "
+                        "that was filled in place (list.append), has its presence flag off and is lost - the copy is not equal to the original and encodes differently",
+                        "copy.copy(M(choice=Inner())) / m.child.tags.append('x'); copy.copy(m)")
+        else:
+            ctx.proved("V8", name, mod.loc(fn), f"{n} paths")
+
+
 def run(ctx) -> None:
-    for name, fn in (("V1", rule_V1), ("V1b", rule_V1b), ("V2", rule_V2), ("V3", rule_V3), ("V4", rule_V4), ("V5", rule_V5), ("V6", rule_V6), ("D3", presence.rule_D3), ("V7", presence.rule_V7)):
+    for name, fn in (("V1", rule_V1), ("V1b", rule_V1b), ("V2", rule_V2), ("V3", rule_V3), ("V4", rule_V4), ("V5", rule_V5), ("V6", rule_V6), ("D3", presence.rule_D3), ("V7", presence.rule_V7), ("V8", rule_V8)):
         ctx.rules_run.append(name)
         fn(ctx)
     ctx.assume("external callees are pure unless in the mutator list; aliases arise only by name binding")
